@@ -4,7 +4,10 @@ import PyatvModel.C17.Model
 Line protocol (stateful; `-` = empty hex):
 
   reset <size> <headroom> <prot 0|1>                      buffer mode
-  wreset <bio|srw|ssw|ice> <size> <headroom> <prot> <seed> <srclen> <ks csv|->
+  ireset <size> <headroom> <prot> <seed> <audio len> <ks csv|-> <icy-metaint|0> <cut> <meta lengths csv|->
+                                                          ice mode over the response body
+                                                          `wire seed metaint metas alen cut`
+  wreset <bio|srw|ssw> <size> <headroom> <prot> <seed> <srclen> <ks csv|->
                                                           wrapper mode over the source
                                                           `pat seed 0 srclen`, short-read oracle ks
   buffer mode : add <hex> | addp <seed> <start> <len> | get <n> | seek <p> | prot <0|1>
@@ -99,11 +102,16 @@ def handle (st : DState) (ws : List String) : DState × String :=
     match sz.toNat?, hr.toNat?, bool? pr, sd.toNat?, ln.toNat?, csvNats? ks with
     | some sz, some hr, some pr, some sd, some ln, some ks =>
       let w := World.init sz hr pr (pat sd 0 ln) ks
-      if kd == "ice" then (.ice (IWorld.init sz hr pr (pat sd 0 ln) ks) ln, "ok")
-      else match kind? kd with
+      match kind? kd with
         | some k => (.world k w ln, "ok")
         | Option.none => (st, "bad-op")
     | _, _, _, _, _, _ => (st, "bad-op")
+  | ["ireset", sz, hr, pr, sd, ln, ks, mi, cut, metas] =>
+    match sz.toNat?, hr.toNat?, bool? pr, sd.toNat?, ln.toNat?, csvNats? ks, mi.toNat?, cut.toNat?, csvNats? metas with
+    | some sz, some hr, some pr, some sd, some ln, some ks, some mi, some cut, some metas =>
+      let W := wire sd mi metas ln cut
+      (.ice (IWorld.init sz hr pr mi W ks) W.length, "ok")
+    | _, _, _, _, _, _, _, _, _ => (st, "bad-op")
   | _ =>
     match st with
     | .none => (st, "bad-op")
